@@ -289,3 +289,410 @@ def run_script(port, steps):
                        t=[x - t0 for x in c.recv_t], timeouts=timeouts, error=c.error)
         c.close()
     return out
+
+
+# --------------------------------------------------------------------------- scenarios (C30/C31)
+def hx(s):
+    return s.encode("utf-8").hex() or "00"[:0]
+
+
+def _h(s):
+    h = s.encode("utf-8").hex()
+    return h if h else "-"
+
+
+class Scenario:
+    """One scripted client: `steps` for run_script, `expect[id]` for the direct oracle and
+    `model[id]` (client S-expression without the `seen` count) for the model replay."""
+
+    def __init__(self, name):
+        self.name = name
+        self.steps = []
+        self.expect = {}
+        self.kinds = []     # per message index: (kind, session, prog-sexp or None)
+        self.n = 0
+
+    def _id(self):
+        i = self.n
+        self.n += 1
+        return str(i)
+
+    def op(self, op, kind, session=None, expect=None, **fields):
+        rid = self._id()
+        msg = {"op": op, "id": rid}
+        if session is not None:
+            msg["session"] = session
+        msg.update(fields)
+        self.steps.append(("send", msg))
+        self.expect[rid] = dict(expect or {}, op=op)
+        self.kinds.append((kind, session))
+        return rid
+
+    def clone(self):
+        return self.op("clone", "clone", expect=dict(status={"done"}))
+
+    def ev(self, session, code, acts, loop=(), fin=("lit", "Unit"), start="ok", **expect):
+        rid = self.op("eval", None, session=session, code=code, expect=expect)
+        def act(a):
+            if a[0] in ("out", "err"):
+                return "(%s %s)" % (a[0], _h(a[1]))
+            if a[0] == "def":
+                return "(def %s %s)" % (_h(a[1]), _h(a[2]))
+            return "(%s)" % a[0]
+        prog = "(%s) (acts %s) (loop %s) (%s %s)" % (
+            start, " ".join(act(a) for a in acts), " ".join(act(a) for a in loop), fin[0], _h(fin[1]))
+        self.kinds[-1] = ("eval", session, prog)
+        return rid
+
+    def wait(self, rid, t=10):
+        self.steps.append(("wait_done", rid, t))
+
+    def wait_out(self, rid, t=10):
+        self.steps.append(("wait_key", rid, "out", t))
+
+    def sleep(self, s):
+        self.steps.append(("sleep", s))
+
+
+def sess_num(name):
+    if isinstance(name, str) and name.startswith("garden-") and name[7:].isdigit():
+        return int(name[7:])
+    return 0
+
+
+def status_sexp(m):
+    st = m.get("status") or []
+    if "interrupted" in st:
+        return "interrupted"
+    if "unknown-session" in st:
+        return "unknownsession"
+    if "session-closed" in st:
+        return "sessionclosed"
+    if "eval-error" in st:
+        return "evalerror"
+    if "error" in st:
+        return "operror"
+    if "new-session" in m:
+        return "(newsession %d)" % sess_num(m["new-session"])
+    if "sessions" in m:
+        return "(sessions %s)" % " ".join(str(x) for x in sorted(sess_num(x) for x in m["sessions"]))
+    return "ok"
+
+
+def trace_sexp(sc, res):
+    """The observable trace of one connection as the driver's `nrepl_accept` argument, or None if
+    a message cannot be expressed (then the raw oracle has already complained)."""
+    cl = []
+    for idx, ((msg, seen), kind) in enumerate(zip(res["sent"], sc.kinds)):
+        k = kind[0]
+        s = sess_num(kind[1]) if len(kind) > 1 else 0
+        if k == "eval":
+            cl.append("(eval %d %d %s)" % (seen, s, kind[2]))
+        elif k in ("close", "interrupt", "query"):
+            cl.append("(%s %d %d)" % (k, seen, s))
+        else:
+            cl.append("(%s %d)" % (k, seen))
+    sv = []
+    for m in res["received"]:
+        rid = m.get("id")
+        if not (isinstance(rid, str) and rid.isdigit()):
+            return None
+        if "status" in m:
+            sv.append("(done %s %s)" % (rid, status_sexp(m)))
+        elif "out" in m:
+            sv.append("(out %s %s)" % (rid, _h(m["out"])))
+        elif "err" in m:
+            sv.append("(err %s %s)" % (rid, _h(m["err"])))
+        elif "value" in m:
+            sv.append("(value %s %s)" % (rid, _h(m["value"])))
+        else:
+            return None
+    return "(trace (client %s) (server %s))" % (" ".join(cl), " ".join(sv))
+
+
+def oracle(sc, res):
+    """Judge the raw trace against the property, without the model.
+    Returns a list of (key, what)."""
+    bad = []
+    by_id = {}
+    for pos, m in enumerate(res["received"]):
+        by_id.setdefault(m.get("id"), []).append((pos, m))
+    for t in res["timeouts"]:
+        bad.append(("timeout", "no `done` for request %s within %ss (%s)" % (t[1], t[-1], sc.expect.get(t[1], {}).get("op"))))
+    if res["error"]:
+        bad.append(("io", res["error"]))
+    for rid, exp in sc.expect.items():
+        ms = [m for _, m in by_id.get(rid, [])]
+        dones = [i for i, m in enumerate(ms) if "done" in (m.get("status") or [])]
+        if len(dones) == 0:
+            if not any(t[1] == rid for t in res["timeouts"]):
+                bad.append(("no-done", "request %s (%s) got no `done`" % (rid, exp["op"])))
+            continue
+        if len(dones) > 1:
+            bad.append(("two-done", "request %s (%s) got %d `done` messages" % (rid, exp["op"], len(dones))))
+        if dones[0] != len(ms) - 1:
+            after = ms[dones[0] + 1]
+            bad.append(("after-done", "request %s (%s): message %r after its `done`" % (
+                rid, exp["op"], {k: (v if not isinstance(v, str) else v[:40]) for k, v in after.items()})))
+        before = ms[:dones[0]]
+        out = "".join(m["out"] for m in before if "out" in m)
+        allout = "".join(m["out"] for m in ms if "out" in m)
+        if "out" in exp:
+            if out != exp["out"]:
+                why = "out-late" if allout == exp["out"] else "out-wrong"
+                bad.append((why, "request %s: stdout before `done` is %r, expected %r (all: %r)" % (
+                    rid, out[:200], exp["out"][:200], allout[:200])))
+        if "out_repeat" in exp:
+            unit = exp["out_repeat"]
+            if out != unit * (len(out) // len(unit)) or (allout != out):
+                bad.append(("out-wrong", "request %s: stdout %r is not a repetition of %r complete before `done`" % (
+                    rid, out[:80], unit)))
+        if "err" in exp:
+            err = "".join(m["err"] for m in before if "err" in m)
+            if not err.startswith(exp["err"]):
+                bad.append(("err-wrong", "request %s: stderr %r, expected prefix %r" % (rid, err[:200], exp["err"][:200])))
+        st = set(ms[dones[0]].get("status") or [])
+        if "status" in exp and st != exp["status"]:
+            key = "status"
+            if "interrupted" in exp["status"] and "interrupted" not in st:
+                key = "not-interrupted"
+            elif "interrupted" in st:
+                key = "spurious-interrupt"
+            bad.append((key, "request %s (%s): status %s, expected %s" % (rid, exp["op"], sorted(st), sorted(exp["status"]))))
+        if "status_any" in exp and st not in exp["status_any"]:
+            bad.append(("status", "request %s (%s): status %s not among %s" % (rid, exp["op"], sorted(st), [sorted(x) for x in exp["status_any"]])))
+        if "value" in exp:
+            vals = [m["value"] for m in before if "value" in m]
+            if vals != [exp["value"]]:
+                bad.append(("value", "request %s: value %r, expected %r (session isolation / result)" % (rid, vals, exp["value"])))
+    for rid in by_id:
+        if rid not in sc.expect:
+            bad.append(("stray-id", "message with unknown id %r" % (rid,)))
+    return bad
+
+
+# --------------------------------------------------------------------------- schedules
+def busy(k):
+    """Garden source that spins for k loop iterations without output (one model `nop`)."""
+    return "let j = 0 while j < %d { j += 1 } " % k
+
+
+def make_scenario(kind, rng, k100):
+    """One scripted client of schedule `kind`. k100 = busy-loop iterations for about 100 ms."""
+    sc = Scenario(kind)
+    tok = lambda: "".join(rng.choice("abcdefghijklmnopqrstuvwxyz") for _ in range(rng.randint(1, 6)))
+    S1, S2 = "garden-1", "garden-2"
+    DONE, INT = {"done"}, {"done", "interrupted"}
+    UNK = {"done", "error", "unknown-session"}
+    c = sc.clone()
+    sc.wait(c)
+    if kind == "last_print":
+        # output printed in the very last step before completion
+        lines = [tok() for _ in range(rng.randint(1, 6))]
+        code = " ".join('println("%s")' % l for l in lines)
+        if rng.random() < 0.5:
+            code = busy(int(k100 * rng.uniform(0.2, 1.4))) + code
+            acts = [("nop",)] + [("out", l + "\n") for l in lines]
+        else:
+            acts = [("out", l + "\n") for l in lines]
+        if rng.random() < 0.3:
+            e = tok()
+            code = 'eprintln("%s") ' % e + code
+            acts = [("err", e + "\n")] + acts
+            r = sc.ev(S1, code, acts, out="".join(l + "\n" for l in lines), err=e + "\n", status=DONE, value="Unit")
+        else:
+            r = sc.ev(S1, code, acts, out="".join(l + "\n" for l in lines), status=DONE, value="Unit")
+        sc.wait(r)
+    elif kind == "flusher_gap":
+        # print, spin past a flusher tick, print again as the last step
+        a, b = tok(), tok()
+        code = 'println("%s") %sprintln("%s")' % (a, busy(int(k100 * rng.uniform(1.3, 2.2))), b)
+        r = sc.ev(S1, code, [("out", a + "\n"), ("nop",), ("out", b + "\n")], out=a + "\n" + b + "\n",
+                  status=DONE, value="Unit")
+        sc.wait(r, 15)
+    elif kind == "two_sessions":
+        c2 = sc.clone()
+        sc.wait(c2)
+        v1, v2 = "a" + tok(), "b" + tok()
+        q1, q2 = '"%s"' % v1, '"%s"' % v2
+        d1 = sc.ev(S1, "let x = %s" % q1, [("def", "x", q1)], status=DONE)
+        d2 = sc.ev(S2, "let x = %s" % q2, [("def", "x", q2)], status=DONE)
+        sc.wait(d1)
+        sc.wait(d2)
+        b1 = busy(int(k100 * rng.uniform(0.0, 1.5)))
+        b2 = busy(int(k100 * rng.uniform(0.0, 1.5)))
+        r1 = sc.ev(S1, b1 + "println(x) x", [("nop",), ("out", v1 + "\n"), ("nop",)], fin=("var", "x"),
+                   out=v1 + "\n", status=DONE, value=q1)
+        r2 = sc.ev(S2, b2 + "println(x) x", [("nop",), ("out", v2 + "\n"), ("nop",)], fin=("var", "x"),
+                   out=v2 + "\n", status=DONE, value=q2)
+        sc.wait(r1, 15)
+        sc.wait(r2, 15)
+    elif kind == "closed_session":
+        k = sc.op("close", "close", session=S1, expect=dict(status={"done", "session-closed"}))
+        sc.wait(k)
+        r = sc.ev(S1, 'println("x")', [("out", "x\n")], out="", status=UNK)
+        sc.wait(r)
+        r2 = sc.ev("garden-%d" % rng.randint(5, 50), "1", [], out="", status=UNK)
+        sc.wait(r2)
+        i = sc.op("interrupt", "interrupt", session=S1, expect=dict(status=UNK))
+        sc.wait(i)
+        l = sc.op("ls-sessions", "ls", expect=dict(status=DONE))
+        sc.wait(l)
+        u = sc.op("frobnicate", "unknownop", expect=dict(status={"done", "error", "unknown-op"}))
+        sc.wait(u)
+    elif kind == "idle_interrupt":
+        i = sc.op("interrupt", "interrupt", session=S1, expect=dict(status=DONE))
+        if rng.random() < 0.5:
+            sc.wait(i)
+        t = tok()
+        r = sc.ev(S1, busy(int(k100 * rng.uniform(0.3, 1.5))) + 'println("%s")' % t,
+                  [("nop",), ("out", t + "\n")], out=t + "\n", status=DONE, value="Unit")
+        sc.wait(r, 15)
+    elif kind == "loop_interrupt":
+        t = tok()
+        code = 'while True { println("%s") %s}' % (t, busy(max(1, int(k100 * rng.uniform(0.05, 0.4)))))
+        r = sc.ev(S1, code, [], loop=[("out", t + "\n"), ("nop",)], out_repeat=t + "\n", status=INT)
+        sc.wait_out(r, 10)
+        if rng.random() < 0.5:
+            sc.sleep(rng.uniform(0, 0.15))
+        i = sc.op("interrupt", "interrupt", session=S1, expect=dict(status=DONE))
+        sc.wait(r, 5)
+        sc.wait(i, 5)
+        # the session stays usable and the flag does not leak into the next eval
+        r2 = sc.ev(S1, 'println("after")', [("out", "after\n")], out="after\n", status=DONE, value="Unit")
+        sc.wait(r2)
+    elif kind == "interrupt_queued":
+        t = tok()
+        code = 'while True { println("%s") %s}' % (t, busy(max(1, int(k100 * rng.uniform(0.05, 0.4)))))
+        r = sc.ev(S1, code, [], loop=[("out", t + "\n"), ("nop",)], out_repeat=t + "\n", status=INT)
+        r2 = sc.ev(S1, 'println("second")', [("out", "second\n")], out="second\n", status=DONE, value="Unit")
+        sc.wait_out(r, 10)
+        i = sc.op("interrupt", "interrupt", session=S1, expect=dict(status=DONE))
+        sc.wait(r, 5)
+        sc.wait(r2, 5)
+        sc.wait(i, 5)
+    elif kind == "close_loop":
+        t = tok()
+        code = 'while True { println("%s") %s}' % (t, busy(max(1, int(k100 * rng.uniform(0.05, 0.4)))))
+        r = sc.ev(S1, code, [], loop=[("out", t + "\n"), ("nop",)], out_repeat=t + "\n", status=INT)
+        sc.wait_out(r, 10)
+        k = sc.op("close", "close", session=S1, expect=dict(status={"done", "session-closed"}))
+        sc.wait(r, 5)
+        sc.wait(k, 5)
+        r2 = sc.ev(S1, "1", [], out="", status=UNK)
+        sc.wait(r2)
+    elif kind == "close_before_reset":
+        # close lands between the dequeue and the flag reset (needs after_dequeue delay)
+        t = tok()
+        r = sc.ev(S1, busy(int(k100 * 1.5)) + 'println("%s")' % t, [("nop",), ("out", t + "\n")],
+                  status_any=[DONE, INT])
+        sc.sleep(0.05)
+        k = sc.op("close", "close", session=S1, expect=dict(status={"done", "session-closed"}))
+        sc.wait(k, 5)
+        sc.wait(r, 15)
+    else:
+        raise ValueError(kind)
+    return sc
+
+
+def calibrate(garden, scratch):
+    """Busy-loop iterations for about 100 ms of eval on this machine (bounded)."""
+    with Server(garden, scratch, {}, life_s=60) as s:
+        sc = Scenario("calibrate")
+        c = sc.clone()
+        sc.wait(c)
+        r = sc.ev("garden-1", busy(20000), [("nop",)])
+        sc.wait(r, 30)
+        t0 = time.time()
+        res = run_script(s.port, sc.steps)
+        ms = [m.get("eval-msec") for m in res["received"] if m.get("id") == r and "eval-msec" in m]
+        msec = max(1, ms[0] if ms else 100)
+    return max(2000, min(400000, int(20000 * 100 / msec)))
+
+
+def run_schedule(garden, scratch, kind, delays, n, seed, k100, life_s=150):
+    """n scripted clients of one schedule against one server (parallel connections).
+    Returns list of (scenario, result)."""
+    import random
+    from concurrent.futures import ThreadPoolExecutor
+    rng = random.Random(seed)
+    scs = [make_scenario(kind, random.Random(rng.getrandbits(32)), k100) for _ in range(n)]
+    out = []
+    with Server(garden, scratch, delays, life_s=life_s) as s:
+        with ThreadPoolExecutor(max_workers=min(n, 8)) as ex:
+            ress = list(ex.map(lambda sc: run_script(s.port, sc.steps), scs))
+        panicked = s.panicked()
+        tail = list(s.stderr_tail[-3:])
+    for sc, r in zip(scs, ress):
+        r["server_panicked"] = panicked
+        r["stderr_tail"] = tail
+        out.append((sc, r))
+    return out
+
+
+# --------------------------------------------------------------------------- shared driver for c30 / c31
+def run_configs(ctx, prop, configs, n, extra_oracle=None):
+    """configs: list of (schedule kind, delays dict). Runs n scripted clients per config (one server
+    per config), the direct oracle on every raw trace and the model replay of every trace."""
+    from . import common
+    garden = common.GARDEN
+    base = ctx.scratch("nrepl")
+    k100 = calibrate(garden, os.path.join(base, "cal"))
+    ctx.cov["busy_iterations_per_100ms"] = k100
+    seeds = [ctx.rng.getrandbits(32) for _ in configs]
+
+    def one(ix):
+        kind, delays = configs[ix]
+        try:
+            return run_schedule(garden, os.path.join(base, "srv%d" % ix), kind, delays, n, seeds[ix], k100)
+        except Exception as e:       # server did not start etc.
+            return e
+
+    results = common.pmap(one, list(range(len(configs))), workers=4)
+    lines, owners = [], []
+    stats = dict(traces=0, multi_chunk=0, interrupted=0, messages=0, accept=0, budget=0, inexpressible=0)
+    for (kind, delays), rs in zip(configs, results):
+        dl = ",".join("%s:%d" % kv for kv in sorted(delays.items())) or "none"
+        if isinstance(rs, Exception):
+            ctx.broken.append(dict(kind="harness", what="nREPL server run failed for %s [%s]: %r" % (kind, dl, rs)))
+            continue
+        for sc, res in rs:
+            stats["traces"] += 1
+            stats["messages"] += len(res["received"])
+            outs = {}
+            for m in res["received"]:
+                if "out" in m:
+                    outs[m.get("id")] = outs.get(m.get("id"), 0) + 1
+            multi = any(v >= 2 for v in outs.values())
+            intr = any("interrupted" in (m.get("status") or []) for m in res["received"])
+            stats["multi_chunk"] += multi
+            stats["interrupted"] += intr
+            replay = dict(schedule=kind, delays=dl, steps=sc.steps, received=res["received"],
+                          sent_seen=[s for _, s in res["sent"]])
+            if res.get("server_panicked"):
+                ctx.fail("%s/%s/server-panic" % (prop, kind), "the nREPL server panicked: %s" % res["stderr_tail"], **replay)
+            bad = oracle(sc, res)
+            if extra_oracle:
+                bad += extra_oracle(kind, sc, res)
+            for key, what in bad:
+                full = key if key.startswith(prop + "/") else "%s/%s/%s" % (prop, kind, key)
+                ctx.fail(full, "[%s, delays %s] %s" % (kind, dl, what), **replay)
+            ctx.case((kind, dl, [m for m in sc.steps if m[0] == "send"]), nontrivial=multi or intr or kind in ("two_sessions", "closed_session", "flusher_gap"))
+            ctx.sample(dict(schedule=kind, delays=dl, received=res["received"][:8]))
+            sx = trace_sexp(sc, res)
+            if sx is None:
+                stats["inexpressible"] += 1
+                continue
+            lines.append("nrepl_accept " + sx)
+            owners.append((kind, dl, replay, bool(bad)))
+    answers = ctx.model_batch(lines, shards=4, timeout=300) if lines else []
+    for line, ans, (kind, dl, replay, had_bad) in zip(lines, answers, owners):
+        if ans is not None and ans.startswith("OK accept"):
+            stats["accept"] += 1
+        elif ans == "OK budget":
+            stats["budget"] += 1
+        else:
+            ctx.disagree("nrepl_accept [%s, delays %s]" % (kind, dl), line[:3000], "no model run produces this trace: %s" % ans,
+                         replay["received"], oracle_also_failed=had_bad)
+    ctx.cov["nrepl"] = stats
+    return stats
